@@ -21,7 +21,7 @@ EXPLANATION = (
     "helper the semiring name is derived from the semiring argument and looked up with get_semiring, the evaluator name from the evaluator argument "
     "and looked up with get_evaluatable (no crossing), and the defaults are name=None; Y4 every return is a list with one tuple per item of the "
     "evaluation result, carrying the answer term in the position of the `term` parameter and Constant(<probability>) in the position of the `prob` "
-    "parameter; Y5 the registered arities of subquery / subquery_in_scope match the parameter lists (2,3,5 and 3,4,6: goal+prob, +evidence, "
+    "parameter, and the evaluation result is not re-bound (filtered, rounded) between evaluate() and the return; Y5 the registered arities of subquery / subquery_in_scope match the parameter lists (2,3,5 and 3,4,6: goal+prob, +evidence, "
     "+semiring+evaluator) and each arity's call-mode pattern has that length."
 )
 TECHNIQUE = "static analysis: pipeline-wiring rules (def-use of the target formula, keyword/parameter agreement, sibling agreement)"
@@ -161,6 +161,11 @@ def _rule_pipeline(repo, col, fname):
     if not (isinstance(evst, ast.Assign) and isinstance(evst.targets[0], ast.Name)):
         raise AnalysisError("%s: evaluation result is not bound to a name" % fname)
     rname = evst.targets[0].id
+    rebinds = [st for st in ast.walk(f.node) if isinstance(st, (ast.Assign, ast.AugAssign, ast.AnnAssign)) and st is not evst
+               and any(isinstance(t_, ast.Name) and t_.id == rname for t_ in ast.walk(st.targets[0] if isinstance(st, ast.Assign) else st.target))]
+    col.decide("Y4", m, rebinds[0] if rebinds else evst, not rebinds, "the evaluation result is reported as computed",
+               "%s re-binds the evaluation result %s before reporting it (%s): every answer of the evaluation, including probability 0, must reach the caller unchanged"
+               % (fname, rname, norm(rebinds[0])[:100] if rebinds else ""), construct="%s: result re-bound" % fname, function=fname)
     # Y4
     pos = list(f.params)
     it_, ip_ = pos.index(P_term), pos.index(P_prob)
